@@ -53,6 +53,15 @@ Theorem C14_uploads_exact : forall pre delim items limit,
 Proof. exact list_uploads_exact. Qed.
 Print Assumptions C14_uploads_exact.
 
+(* a key marker behind every key with a pending upload ends the walk: an empty page, not truncated *)
+Theorem C14_uploads_marker_behind_every_key : forall u b bu pre delim km idm limit,
+  sm_get b (u_buckets u) = Some bu -> km <> [] ->
+  (forall kv, In kv (bu_index bu) -> bltb (fst kv) km = true) ->
+  exists r, list_uploads u b pre delim km idm limit = inr r /\
+    ur_uploads r = [] /\ ur_prefixes r = [] /\ ur_truncated r = false.
+Proof. exact list_uploads_marker_behind_every_key. Qed.
+Print Assumptions C14_uploads_marker_behind_every_key.
+
 Example C14_ex : parts_from 0 [None; Some {| pt_body := [1]%N; pt_etag := [] |}; None; Some {| pt_body := [2]%N; pt_etag := [] |}]
                = [(1%nat, {| pt_body := [1]%N; pt_etag := [] |}); (3%nat, {| pt_body := [2]%N; pt_etag := [] |})].
 Proof. reflexivity. Qed.
